@@ -13,7 +13,7 @@ OPTS = {'quick': {'hash_order': 'insertion', 'step_budget': 3000000}, 'thorough'
 BOUNDS = {
     'quick': 'groups: byte tokenizer over the C01 text templates (symbolic characters, special-token spellings), byte / '
              'code-point groups, graphemes on/off, prefix/suffix configs, ignore_special_tokens symbolic; sparse matrix: batches '
-             'of 1-3 groupings chosen from 6 real tokenizations (every composition), mean / sum; padding: batches of 1-3 items '
+             'of 1-3 groupings chosen from 6 real tokenizations (every composition), mean / sum, and batches of 1-2 groupings chosen from 6 token-group trees of 2-4 nesting levels; padding: batches of 1-3 items '
              'with 0-3 symbolic token ids / labels, all four task-input kinds, symbolic pad ids; padding_mask for the same lengths',
     'thorough': 'same with the thorough C01 templates and batches of up to 4 items',
 }
@@ -37,11 +37,29 @@ def shapes(tier):
         for agg in ('Mean', 'Sum'):
             for groups in ('Bytes', 'CodePoints'):
                 out.append({'mode': 'coo', 'batch': b, 'agg': agg, 'groups': groups, 'g': groups == 'CodePoints', 'special': 'bos_eos', 'pad_to': None})
+    # groupings given as trees of arbitrary nesting depth (the matrix builder and TokenGroup::get_weights are generic)
+    for b in (1, 2) if tier == 'quick' else (1, 2, 3):
+        for agg in ('Mean', 'Sum'):
+            out.append({'mode': 'coo_tree', 'batch': b, 'agg': agg})
     for b in range(1, nb + 1):
         for kind in KINDS:
             out.append({'mode': 'pad', 'batch': b, 'kind': kind})
     out.sort(key=lambda s: -(s.get('batch', 0) * 3 + len(c01.TEMPLATES.get(s.get('template'), []))))
     return out
+
+
+F = lambda n: {'Full': n}
+N = lambda *xs: {'Nested': list(xs)}
+# token-group trees with two to four levels (no Empty groups: their weights are 0 by definition)
+TREES = [[N(N(F(2), F(1)), F(1))], [F(1), N(F(1), N(F(1), F(2)))], [N(N(N(F(2))))], [N(F(1), F(2)), N(N(F(1)), N(F(1), F(1)))],
+         [F(2)], [N(N(F(1), F(1)), N(F(2)), F(1)), F(1)]]
+
+
+def tree_value(m, g):
+    vs = m.enum_variants_of('TokenGroup')
+    if 'Full' in g:
+        return Enum('TokenGroup', 'Full', vs.index('Full'), [Int(g['Full'], 'usize')])
+    return Enum('TokenGroup', 'Nested', vs.index('Nested'), [VecObj([tree_value(m, x) for x in g['Nested']])])
 
 
 def glen(grp):
@@ -158,6 +176,31 @@ def run(ctx, shape, opts):
         for fl in coo_failures(flat, shp, vals, size, gl, [l.v for l in lengths], gpys, shape['agg']):
             ctx.fail(fl)
         ctx.sample = {'mode': md, 'batch': B, 'picks': picks, 'stride': shp[1] if len(shp) > 1 else None}
+        return
+    if md == 'coo_tree':
+        B = shape['batch']
+        picks = [ctx.in_choice('tree%d' % i, len(TREES)) for i in range(B)]
+        vs = m.enum_variants_of('GroupAggregation')
+        groupings, lengths, gpys = [], [], []
+        for pi in picks:
+            tr = TREES[pi]
+            grouping = Tup([VecObj([tree_value(m, g_) for g_ in tr]), Enum('GroupAggregation', shape['agg'], vs.index(shape['agg']), [])])
+            groupings.append(ref_to(grouping))
+            lengths.append(Int(sum(glen_py(g_) for g_ in tr), 'usize'))
+            gpys.append(tr)
+        r = m.call('token_groups_to_sparse_coo_matrix', SliceRef(groupings, 0, B), SliceRef(lengths, 0, B))
+        ctx.require(r.variant == 'Ok', 'the sparse matrix is built')
+        sc = r.fields[0]
+        idx = sc.get('indices')
+        vals = [x.v for x in sc.get('values').get('data').items]
+        shp = [x.v for x in idx.get('shape').fields]
+        flat = [x.v for x in idx.get('data').items]
+        size = [x.v for x in sc.get('size').items]
+        gl = [x.v for x in sc.get('group_lengths').items]
+        ctx.out('coo', {'indices': flat, 'shape': shp, 'values': vals, 'size': size, 'group_lengths': gl})
+        for fl in coo_failures(flat, shp, vals, size, gl, [l.v for l in lengths], gpys, shape['agg']):
+            ctx.fail(fl)
+        ctx.sample = {'mode': md, 'batch': B, 'picks': picks}
         return
     # ---- padding / tensorize
     B = shape['batch']
@@ -281,6 +324,12 @@ def native_outputs(native, shape, inputs):
             return {'panic': v}
         grp = list(v['groups'].values())[0]
         return {'groups': grp['groups'], 'nids': len(v['ids']), '_name': list(v['groups'].keys())[0]}
+    if md == 'coo_tree':
+        trees = [TREES[inputs['tree%d' % i]] for i in range(shape['batch'])]
+        k, v = native_ok(native.call('sparse_coo_trees', trees=trees, lengths=[sum(glen_py(g_) for g_ in t) for t in trees], agg=shape['agg']))
+        if k != 'ok':
+            return {'panic': v}
+        return {'coo': v['coo'], '_groups': trees, '_lengths': [sum(glen_py(g_) for g_ in t) for t in trees]}
     if md == 'coo':
         texts = [[ord(c) for c in POOL[inputs['item%d' % i]]] for i in range(shape['batch'])]
         k, v = native_ok(native.call('sparse_coo', shape=_nshape(shape), texts=texts))
@@ -335,7 +384,7 @@ def concrete_check(native, inputs, shape):
                 failed.append(what)
         check_groups(req, o['nids'], o['groups'], len(prefix), len(suffix), units, shape['groups'])
         return failed
-    if md == 'coo':
+    if md in ('coo', 'coo_tree'):
         c = o['coo']
         return coo_failures(c['indices'], c['shape'], c['values'], c['size'], c['group_lengths'], o['_lengths'], o['_groups'], shape['agg'])
     t, rows = o['_t'], o['_rows']
@@ -386,6 +435,9 @@ def random_case(rng):
         pool = ['a', 'b', '<', '>', 'ä', '中', '😀', ' ', '<pad>', '<bos>', 'é', '́']
         return _gcase(''.join(rng.choice(pool) for _ in range(rng.randint(0, 5))), rng.choice(['default', 'bos_eos']), rng.random() < 0.5,
                       rng.choice(['Bytes', 'CodePoints']), rng.random() < 0.4)
+    if rng.random() < 0.4:
+        b = rng.randint(1, 3)
+        return ({'mode': 'coo_tree', 'batch': b, 'agg': rng.choice(['Mean', 'Sum'])}, {'tree%d' % i: rng.randrange(len(TREES)) for i in range(b)})
     b = rng.randint(1, 3)
     groups = rng.choice(['Bytes', 'CodePoints'])
     return ({'mode': 'coo', 'batch': b, 'agg': rng.choice(['Mean', 'Sum']), 'groups': groups, 'g': groups == 'CodePoints', 'special': 'bos_eos', 'pad_to': None},
